@@ -21,8 +21,11 @@ ENTRIES = [(REL, "FSA." + m) for m in (
 
 
 def run(ctx):
+    ctx.do(F.rule_md1)
+    ctx.do(F.rule_hid1)
     ctx.do(F.rule_v1)
     ctx.do(F.rule_dc1)
+    ctx.do(F.rule_iter1, ["geometry_tools/automata/fsa.py", "geometry_tools/utils/words.py", "geometry_tools/representation.py"])
     ctx.do(F.rule_vrow1)
     ctx.do(MI.rule_invmap1, ["geometry_tools/automata/fsa.py", "geometry_tools/automata/kbmag_utils.py"])
     ctx.do(F.rule_v2)
